@@ -1,9 +1,12 @@
 (* Generated-vs-handwritten tie for the rank scorers Dowdall, Geometric, ModifiedBorda, FixedTop: the per-rank
    score expressions regenerated from votelib/component/rankscore.py on every run (Gen/Rankscore.v) give exactly the
    score lists of Model/Convert.v [rank_scores] (the scorers of the positional converter, C13 / C17).
-   Borda (stateful) and SequenceBased (slicing) are tied by correspondence only. *)
+   Second part (typed translation): select_padded (slicing / padding), Borda.set_n_candidates / Borda.scores on an
+   initialised scorer and SequenceBased.scores are the list functions of Model/Convert.v (select_padded, rank_scores) and
+   the stored-state functions of Model/State.v (borda_set_n, borda_scores_st; C18). *)
 From Coq Require Import ZArith QArith Qpower List Lia Bool.
-From VL Require Import Prelude.PyNum Model.Convert.
+From VL Require Import Prelude.PyDict Prelude.PyNum Prelude.PyList Model.Convert Model.State.
+From VL Require Import Proofs.PyList_proofs.
 From VL Require Gen.Rankscore.
 Import ListNotations.
 Open Scope Q_scope.
@@ -27,12 +30,14 @@ Proof.
     rewrite <- Pos.of_nat_succ. reflexivity. }
   rewrite E. apply inv_pos.
 Qed.
+Print Assumptions tie_dowdall.
 
 Lemma tie_modified_borda n_cands n : exists l, rank_scores ModifiedBorda n_cands n = Some l /\ Forall2 Qeq (gen_list Gen.Rankscore.ModifiedBorda_score n) l.
 Proof.
   eexists. split; [reflexivity|]. unfold gen_list. apply map_seq_Qeq. intros r.
   unfold Gen.Rankscore.ModifiedBorda_score, Qminus. rewrite <- inject_Z_opp, <- inject_Z_plus. reflexivity.
 Qed.
+Print Assumptions tie_modified_borda.
 
 Lemma tie_fixed_top top n_cands n : exists l, rank_scores (FixedTop top) n_cands n = Some l /\ Forall2 Qeq (gen_list (Gen.Rankscore.FixedTop_score top) n) l.
 Proof.
@@ -44,6 +49,7 @@ Proof.
   - assert (~ (inject_Z (top + - Z.of_nat r) <= inject_Z 0)) as H by (intros H; apply Qle_bool_iff in H; change (inject_Z 0) with (0 # 1) in H; congruence).
     rewrite <- Zle_Qle in H. rewrite Z.max_l by lia. replace (top - Z.of_nat r)%Z with (top + - Z.of_nat r)%Z by lia. reflexivity.
 Qed.
+Print Assumptions tie_fixed_top.
 
 Lemma tie_geometric base n_cands n : (0 < base)%Z ->
   exists l, rank_scores (Geometric base) n_cands n = Some l /\ Forall2 Qeq (gen_list (Gen.Rankscore.Geometric_score base) n) l.
@@ -52,6 +58,7 @@ Proof.
   unfold Gen.Rankscore.Geometric_score, py_frac, py_pow.
   rewrite <- (Zpower_Qpower base (Z.of_nat r)) by lia. unfold Qdiv. rewrite Qmult_1_l. reflexivity.
 Qed.
+Print Assumptions tie_geometric.
 
 Theorem GenTie_Rankscore :
   (forall n_cands n, exists l, rank_scores Dowdall n_cands n = Some l /\ Forall2 Qeq (gen_list Gen.Rankscore.Dowdall_score n) l) /\
@@ -60,3 +67,102 @@ Theorem GenTie_Rankscore :
   (forall base n_cands n, (0 < base)%Z -> exists l, rank_scores (Geometric base) n_cands n = Some l /\ Forall2 Qeq (gen_list (Gen.Rankscore.Geometric_score base) n) l).
 Proof. exact (conj tie_dowdall (conj tie_modified_borda (conj tie_fixed_top tie_geometric))). Qed.
 Print Assumptions GenTie_Rankscore.
+
+(* ================================================================ select_padded, Borda, SequenceBased
+   (typed translation: list slicing / padding as list functions, Borda's stored score list) *)
+(* the proofs below go by case analysis on the integer comparisons and linear arithmetic, not by syntactic identity, so
+   that an equivalent rewrite of the source ([len(selected) < n], the padding without its guard, the Borda score as
+   [base + (n - 1) - rank]) keeps them *)
+Ltac z_atoms :=
+  repeat match goal with
+  | |- context [(?a <? ?b)%Z] => destruct (Z.ltb_spec a b)
+  | |- context [(?a <=? ?b)%Z] => destruct (Z.leb_spec a b)
+  | |- context [(?a =? ?b)%Z] => destruct (Z.eqb_spec a b)
+  end.
+
+(* select_padded(sequence, n, pad_with) for n >= 0: the first n items, padded to length n *)
+Lemma gen_select_padded_spec : forall (s : list Q) (n : nat) (p : Q),
+  Gen.Rankscore.select_padded s (Z.of_nat n) p = firstn n s ++ repeat p (n - length (firstn n s)).
+Proof.
+  intros s n p. unfold Gen.Rankscore.select_padded, py_slice_to, py_len, py_list_mul. cbv zeta.
+  rewrite ?Nat2Z.id. pose proof (firstn_length n s) as Hlen. set (sel := firstn n s) in *.
+  z_atoms; cbn [negb andb orb]; try lia; rewrite ?concat_repeat_singleton;
+    solve [ f_equal; f_equal; lia
+          | replace (n - length sel)%nat with 0%nat by lia; cbn [repeat]; rewrite ?app_nil_r; reflexivity ].
+Qed.
+
+Lemma tie_select_padded : forall s n, Gen.Rankscore.select_padded s (Z.of_nat n) 0 = select_padded s n.
+Proof. intros s n. rewrite gen_select_padded_spec. reflexivity. Qed.
+Print Assumptions tie_select_padded.
+
+(* Borda.set_n_candidates: the stored score list (ints in the source, injected into Q) *)
+Lemma tie_borda_set_n : forall base k,
+  map inject_Z (Gen.Rankscore.Borda_set_n_candidates base (Z.of_nat k)) =
+  map (fun r => inject_Z (Z.of_nat k + base - 1 - Z.of_nat r)) (seq 0 k).
+Proof.
+  intros base k. unfold Gen.Rankscore.Borda_set_n_candidates, py_range. cbv zeta.
+  rewrite Nat2Z.id, !map_map. apply map_ext. intros r. f_equal; lia.
+Qed.
+Print Assumptions tie_borda_set_n.
+
+Lemma tie_borda_set_n_state : forall base k,
+  b_scores (borda_set_n base k) = Some (map inject_Z (Gen.Rankscore.Borda_set_n_candidates base (Z.of_nat k))) /\
+  b_n (borda_set_n base k) = Some k.
+Proof. intros base k. rewrite tie_borda_set_n. split; reflexivity. Qed.
+Print Assumptions tie_borda_set_n_state.
+
+(* Borda.scores on an initialised scorer: ValueError when more ranks than candidates, else the padded selection *)
+Definition exn_of (r : list Q + borda_err) : list Q + pyexn :=
+  match r with inl l => inl l | inr BE_value => inr PyValueError | inr BE_runtime => inr PyRuntimeError end.
+
+Lemma tie_borda_scores : forall k sc n,
+  Gen.Rankscore.Borda_scores (Z.of_nat k) sc (Z.of_nat n) = exn_of (borda_scores_st {| b_n := Some k; b_scores := Some sc |} n).
+Proof.
+  intros k sc n. unfold Gen.Rankscore.Borda_scores, borda_scores_st. cbn [b_n b_scores]. cbv zeta.
+  destruct (Nat.ltb_spec k n); z_atoms; cbn [negb andb orb exn_of]; try lia; try reflexivity;
+    f_equal; apply (tie_select_padded sc n).
+Qed.
+Print Assumptions tie_borda_scores.
+
+(* both together = the Borda scorer of the positional converter (Model/Convert.v rank_scores, C13 / C17) *)
+Lemma tie_borda : forall base n_cands n,
+  Gen.Rankscore.Borda_scores (Z.of_nat n_cands) (map inject_Z (Gen.Rankscore.Borda_set_n_candidates base (Z.of_nat n_cands))) (Z.of_nat n) =
+  match rank_scores (Borda base) n_cands n with Some l => inl l | None => inr PyValueError end.
+Proof.
+  intros base n_cands n. rewrite tie_borda_scores, tie_borda_set_n. unfold borda_scores_st, rank_scores. cbn [b_n b_scores].
+  destruct (Nat.ltb n_cands n); reflexivity.
+Qed.
+Print Assumptions tie_borda.
+
+Lemma tie_sequence_based : forall sq n_cands n,
+  rank_scores (SequenceBased sq) n_cands n = Some (Gen.Rankscore.SequenceBased_scores sq (Z.of_nat n)).
+Proof.
+  intros sq n_cands n. unfold Gen.Rankscore.SequenceBased_scores. cbn [rank_scores]. f_equal. symmetry. apply (tie_select_padded sq n).
+Qed.
+Print Assumptions tie_sequence_based.
+
+Theorem GenTie_Rankscore_lists :
+  (forall s n, Gen.Rankscore.select_padded s (Z.of_nat n) 0 = select_padded s n) /\
+  (forall base k, b_scores (borda_set_n base k) = Some (map inject_Z (Gen.Rankscore.Borda_set_n_candidates base (Z.of_nat k))) /\
+                  b_n (borda_set_n base k) = Some k) /\
+  (forall k sc n, Gen.Rankscore.Borda_scores (Z.of_nat k) sc (Z.of_nat n) = exn_of (borda_scores_st {| b_n := Some k; b_scores := Some sc |} n)) /\
+  (forall base n_cands n,
+     Gen.Rankscore.Borda_scores (Z.of_nat n_cands) (map inject_Z (Gen.Rankscore.Borda_set_n_candidates base (Z.of_nat n_cands))) (Z.of_nat n) =
+     match rank_scores (Borda base) n_cands n with Some l => inl l | None => inr PyValueError end) /\
+  (forall sq n_cands n, rank_scores (SequenceBased sq) n_cands n = Some (Gen.Rankscore.SequenceBased_scores sq (Z.of_nat n))).
+Proof. exact (conj tie_select_padded (conj tie_borda_set_n_state (conj tie_borda_scores (conj tie_borda tie_sequence_based)))). Qed.
+
+(* non-vacuity: the generated functions on concrete inputs (CPython: Borda(base=1), set_n_candidates(4): scores(3) == [4, 3, 2];
+   scores(5) raises ValueError; SequenceBased([12, 10, 8]).scores(5) == [12, 10, 8, 0, 0]) *)
+Example gen_borda_4_3 :
+  Gen.Rankscore.Borda_scores 4 (map inject_Z (Gen.Rankscore.Borda_set_n_candidates 1 4)) 3 = inl [4 # 1; 3 # 1; 2 # 1].
+Proof. reflexivity. Qed.
+Example gen_borda_4_5 :
+  Gen.Rankscore.Borda_scores 4 (map inject_Z (Gen.Rankscore.Borda_set_n_candidates 1 4)) 5 = inr PyValueError.
+Proof. reflexivity. Qed.
+Example gen_seq_pad : Gen.Rankscore.SequenceBased_scores [12 # 1; 10 # 1; 8 # 1] 5 = [12 # 1; 10 # 1; 8 # 1; 0; 0].
+Proof. reflexivity. Qed.
+Example gen_seq_cut : Gen.Rankscore.SequenceBased_scores [12 # 1; 10 # 1; 8 # 1] 2 = [12 # 1; 10 # 1].
+Proof. reflexivity. Qed.
+
+Print Assumptions GenTie_Rankscore_lists.
